@@ -51,7 +51,8 @@ type Step struct {
 	Host    string     `json:"host"`
 	Path    string     `json:"path"`
 	Set     []CookieOp `json:"set,omitempty"`
-	Extra   []string   `json:"extra,omitempty"` // client's own cookies "k=v"
+	Extra   []string   `json:"extra,omitempty"`          // client's own cookies "k=v"
+	RawSet  []string   `json:"raw_set_cookie,omitempty"` // Set-Cookie lines browsers accept but a strict parser may skip
 	Dup     bool       `json:"dup_session_cookie,omitempty"`
 }
 
@@ -102,6 +103,10 @@ func genCase(t *rapid.T) Case {
 			}
 			s.Set = append(s.Set, op)
 		}
+		if rapid.IntRange(0, 5).Draw(t, "exotic") == 0 {
+			s.RawSet = rapid.SliceOfN(rapid.SampledFrom([]string{"prefs[theme]=dark; Path=/", `state={"user":"alice"}`, "name=Jos\u00e9", "=novalue", "a b=c", "quoted=\"x y\"; HttpOnly",
+				"noequals", "k=v; Max-Age=abc", "k2=v2; Expires=yesterday", ";", "sp ace=1; Path=/"}), 1, 3).Draw(t, "rawset")
+		}
 		ne := rapid.SampledFrom([]int{0, 0, 1, 2}).Draw(t, "nextra")
 		for j := 0; j < ne; j++ {
 			s.Extra = append(s.Extra, rapid.SampledFrom([]string{"own", "lang", "sid", "x"}).Draw(t, "ename")+"="+rapid.StringMatching(`[a-z0-9]{1,6}`).Draw(t, "evalue"))
@@ -138,10 +143,14 @@ func runCase(c *Case) vh.Outcome {
 	var got seen
 	seq := 0
 	var setNow []*http.Cookie
+	var rawNow []string
 	backend := http.HandlerFunc(func(w http.ResponseWriter, r *http.Request) {
 		got = seen{cookies: r.Cookies(), raw: r.Header.Values("Cookie")}
 		for _, ck := range setNow {
 			w.Header().Add("Set-Cookie", ck.String())
+		}
+		for _, raw := range rawNow {
+			w.Header().Add("Set-Cookie", raw)
 		}
 		w.Header().Set("X-Backend", "1")
 		w.WriteHeader(200)
@@ -190,6 +199,10 @@ func runCase(c *Case) vh.Outcome {
 				}
 			}
 			setNow = append(setNow, ck)
+		}
+		rawNow = st.RawSet
+		if len(rawNow) > 0 {
+			o.Classes = append(o.Classes, "exotic-set-cookie-lines")
 		}
 		u := &url.URL{Scheme: "https", Host: st.Host, Path: st.Path}
 		req := httptest.NewRequest("GET", "http://"+st.Host+st.Path, nil)
@@ -284,7 +297,16 @@ func runCase(c *Case) vh.Outcome {
 			return fail(o, i, "response altered: status %d, headers %v", w.Code, w.Sent)
 		}
 		// the reference jar takes the backend's cookies
-		if len(setNow) > 0 {
+		if len(rawNow) > 0 {
+			hdr := http.Header{}
+			for _, ck := range setNow {
+				hdr.Add("Set-Cookie", ck.String())
+			}
+			for _, raw := range rawNow {
+				hdr.Add("Set-Cookie", raw)
+			}
+			model[id].SetCookies(u, (&http.Response{Header: hdr}).Cookies())
+		} else if len(setNow) > 0 {
 			model[id].SetCookies(u, setNow)
 			o.Classes = append(o.Classes, "set-cookie")
 			for _, op := range st.Set {
